@@ -180,6 +180,23 @@ def directed():
     return _DIRECTED
 
 
+def table_cases():
+    """Divisors for which a changed reciprocal-table row of the source gives a wrong reciprocal
+    (found by p_c14.table_directed, see there), turned into Uint divisions."""
+    from . import p_c14
+    out = []
+    M = (1 << 64) - 1
+    for ln in p_c14.table_directed()[:40]:
+        p = ln.split()
+        if p[0] != "reciprocal":
+            continue
+        d = int(p[2][2:], 16)
+        out.append("div_rem 128 %s %s" % (C.tokL([M, M]), C.tokL([d, 0])))
+        out.append("div_rem 192 %s %s" % (C.tokL([1, 2, M]), C.tokL([5, d, 0])))
+        out.append("div_rem 256 %s %s" % (C.tokL([1, 2, 3, M]), C.tokL([7, 5, d, 0])))
+    return out
+
+
 def corpus():
     out = []
     # regression of the repaired next_multiple_of (used to end in todo!())
@@ -217,6 +234,7 @@ def corpus():
         out.append(line("div_ceil", bits, n, d))
         out.append(line("next_multiple_of", bits, n, d))
         out.append(line("op_div", bits, n, d, n % 6))
+    out += table_cases()
     return [x for x in out if x not in SUSPECT]
 
 
@@ -267,7 +285,7 @@ def extra_evidence(lines):
         ldhist[key] = ldhist.get(key, 0) + 1
     ev["traced_branch_reach"] = cov
     ev["divisor_limb_length_histogram"] = ldhist
-    return ev
+    return ev + table_cases()
 
 
 def nontrivial(ln):
